@@ -335,6 +335,13 @@ class Engine(
                 kept = rhs if ignore_lhs else lhs
                 if kept.engine != self:
                     return kept
+            case Join(predicate=predicate) if predicate.as_trivial() is True:
+                # The same elision when it is reached through a PartialJoin,
+                # which does not go through Join._begin_apply.
+                if lhs.is_join_identity and rhs.engine != self:
+                    return rhs
+                if rhs.is_join_identity and lhs.engine != self:
+                    return lhs
         conformed_lhs = self.conform(lhs)
         conformed_rhs = self.conform(rhs)
         return self._append_binary_to_select(operation, conformed_lhs, conformed_rhs)
